@@ -33,3 +33,10 @@ check(
     "Float round-off of exp(log y) outside the claim; closest=True search outside; inner estimators are stubs; label sets concrete. String labels are a listed known finding.",
     "DESIGN.md 3.C13",
 )
+check(
+    "C17",
+    "symbolic execution (SX) of the real fit with a SYMBOLIC, UNBOUNDED row count and symbolic alpha (z3 LIA/LRA over randint's recorded arguments); bounded SX for the aggregation methods",
+    "For every n >= 1 and alpha > 0 (one query each): randint is called with low=0, high=n (exclusive bound: every row eligible, none out of range) and size within 1/2 of alpha*n; X, y, w are indexed with the same drawn vector; each of the n_estimators clones is fitted exactly once. For m<=3/5 members, <=2/3 query rows (float and integer query dtype): predict_all columns are the members' predictions, predict their mean, predict_sorted rows non-decreasing rearrangements.",
+    "RNG uniformity is NumPy's; joblib replaced by a sequential map (thread schedules outside); base regressor is a recording stub; float32 query batches outside (rounding).",
+    "DESIGN.md 3.C17",
+)
